@@ -51,8 +51,13 @@ func oracle14(m *mon.M, v *v14, msg []byte, i int64) (want []byte, ok bool) {
 func TestC14(t *testing.T) {
 	m := mon.New(t, "C14")
 	defer m.Done()
-	m.Rule("case = one Write/Sum/Reset history on md4 (even index) or ripemd160 (odd index): message length from the index-scheduled class list {0,1,k·64+{55,56,57,63,64,65} (k=0..3),1999,2000, 8×random 0..2000}; written in random chunkings (single, first chunk at 63/64/65, 1..3-byte chunks, with empty writes, random cuts); a Sum is forced mid-stream at a random cut (its digest is compared with the oracles for that prefix) and more Sums at random; every 4th sweep writes garbage, Sums, Resets first; final Sum is taken twice (random prefix / spare capacity). Buffer ownership: every Write goes through one reused buffer overwritten after the call (and must come back unmodified), the last 8 slices returned by Sum are re-compared with snapshots after every later operation of any instance, Sum(b) gets guarded prefixes (no/short/enough spare capacity). Oracle = executable RFC 1320 / RIPEMD-160 spec (h/ref/md4rmd) which must agree with libgcrypt and nettle on the same message (else inconclusive); python hashlib ripemd160 on every 16th case. One message of 2^29+3 bytes per hash (bit length crosses 2^32) is compared against libgcrypt+nettle. distinct = (hash, length class, chunk style, ops)")
+	m.Rule("case = one Write/Sum/Reset history on md4 (even index) or ripemd160 (odd index): message length from the index-scheduled class list {0,1,k·64+{55,56,57,63,64,65} (k=0..3),1999,2000, 8×random 0..2000}; written in random chunkings (single, first chunk at 63/64/65, 1..3-byte chunks, with empty writes, random cuts); a Sum is forced mid-stream at a random cut (its digest is compared with the oracles for that prefix) and more Sums at random; every 4th sweep writes garbage, Sums, Resets first; final Sum is taken twice (random prefix / spare capacity). Buffer ownership: every Write goes through one reused buffer overwritten after the call (and must come back unmodified), the last 8 slices returned by Sum are re-compared with snapshots after every later operation of any instance, Sum(b) gets guarded prefixes (no/short/enough spare capacity). Concurrency stream conc: per round 6 goroutines each obtain their own MD4/RIPEMD-160 object from the shared registered constructor (crypto.MD4.New / crypto.RIPEMD160.New) after a barrier and drive it through Write/Sum with Gosched between calls, every 4th round under GOMAXPROCS(1); expected digests precomputed from the reference; the verif,race variant runs only this stream under the race detector. Oracle = executable RFC 1320 / RIPEMD-160 spec (h/ref/md4rmd) which must agree with libgcrypt and nettle on the same message (else inconclusive); python hashlib ripemd160 on every 16th case. One message of 2^29+3 bytes per hash (bit length crosses 2^32) is compared against libgcrypt+nettle. distinct = (hash, length class, chunk style, ops)")
 	m.Assume("h/ref/md4rmd passes the RFC 1320 test suite and the RIPEMD-160 paper's test values (incl. 10^6×'a') in its own unit test and is cross-checked against libgcrypt 1.10 and nettle 3.8 on every comparison; Go runtime panic reporting")
+	if mon.RaceBuild {
+		// race-detector variant: only the shared-value concurrency streams
+		conc14(m)
+		return
+	}
 	py, err := ext.StartPy()
 	if err != nil {
 		m.Note("python witness unavailable: " + err.Error())
@@ -289,6 +294,7 @@ func TestC14(t *testing.T) {
 			m.Violation("wrong-digest-long:"+v.name, map[string]any{"seed_stream": "long", "len": (1 << 29) + 3, "got": mon.Hex(got), "got_second_sum": mon.Hex(got2), "want": mon.Hex(g)})
 		}
 	})
+	conc14(m)
 	m.Gate("histories_md4", m.N(2000, 100000), "MD4 histories")
 	m.Gate("histories_ripemd160", m.N(2000, 100000), "RIPEMD-160 histories")
 	m.Gate("boundary_length_histories", m.N(3000, 150000), "lengths scheduled at k·64+{55,56,57,63,64,65}, 0, 1, 1999, 2000")
